@@ -1,6 +1,46 @@
-(* C13 — the position codec is lossless, canonical and sliceable by key (theorems are added as they close) *)
-From SA Require Import Base.Prelude Codec.Codec Codec.Codec_Spec.
+(* C13 — the position codec is lossless, canonical and sliceable by key.
+   Statement-only file.  Model: Codec/Codec.v (numpy-combinator level: floor_divide, wrapping shifts,
+   diff/nonzero, reduceat, bit-by-bit decode + lexsort + split).  Spec: Codec/Codec_Spec.v. *)
+From Coq Require Import Sorted.
+From SA Require Import Base.Prelude Codec.Codec Codec.Codec_Spec Codec.Codec_Proofs.
 Open Scope N_scope.
-Example C13_roundtrip_example :
-  decode (encode [0;0;0;3;3;3] [0;17;18;5;40;262143]) = group_by_key [(0,0);(0,17);(0,18);(3,5);(3,40);(3,262143)].
-Proof. vm_compute. reflexivity. Qed.
+
+(* ps strictly increasing in (key, position), key < 2^28, position < 2^18 *)
+Theorem C13_encode_is_grouping : forall ps, sorted2 ps -> bounded ps ->
+  encode (map fst ps) (map snd ps) = encode_spec ps.
+Proof. exact encode_correct. Qed.
+Print Assumptions C13_encode_is_grouping.
+
+Theorem C13_roundtrip : forall ps, sorted2 ps -> bounded ps ->
+  decode (encode (map fst ps) (map snd ps)) = group_by_key ps.
+Proof. exact roundtrip. Qed.
+Print Assumptions C13_roundtrip.
+
+Theorem C13_canonical : forall ps, sorted2 ps -> bounded ps ->
+  StronglySorted N.lt (map header_of (encode (map fst ps) (map snd ps))) /\
+  Forall (fun w => payload_lsb_of w <> 0 /\ w < 2 ^ 64) (encode (map fst ps) (map snd ps)).
+Proof. exact encode_canonical_real. Qed.
+Print Assumptions C13_canonical.
+
+Theorem C13_counts : forall ps, sorted2 ps -> bounded ps ->
+  num_values_per_key (encode (map fst ps) (map snd ps)) = Done (counts_spec ps).
+Proof. exact counts_correct_real. Qed.
+Print Assumptions C13_counts.
+
+Theorem C13_keys_unique : forall ps, sorted2 ps -> bounded ps -> ps <> [] ->
+  keys_unique (encode (map fst ps) (map snd ps)) = Done (keys_spec ps).
+Proof. exact keys_unique_correct_real. Qed.
+Print Assumptions C13_keys_unique.
+
+(* non-vacuity: both ends of the key and position ranges *)
+Example C13_nonvacuous :
+  let ps := [(0,0);(0,17);(0,18);(3,5);(3,40);(268435455,0);(268435455,262143)] in
+  sorted2 ps /\ bounded ps /\
+  decode (encode (map fst ps) (map snd ps)) = [(0,[0;17;18]);(3,[5;40]);(268435455,[0;262143])].
+Proof.
+  cbv zeta. split; [cbn; unfold lt2; cbn; repeat split; lia|].
+  split; [repeat constructor; cbn; lia|]. vm_compute. reflexivity.
+Qed.
+
+(* Still only checked by correspondence (model = spec = implementation on generated inputs), not yet proved:
+   slice by a sorted key set = encoding of the filtered pairs; boundary encoding = per-segment encodings. *)
